@@ -21,7 +21,7 @@ EXTRAS = {"none": [], "p": ["-p", "P"], "p2": ["-p", "two words"], "e": ["-e", "
           "p4": ["-p", "cmake-reference"], "e3": ["-e", "*-removed*"],
           # relative values with an inner slash (they mean what the command line makes of them, nothing else)
           "e4": ["-e", "nested/sub/b.cmake"], "e5": ["--exclude", "sub/deep"]}     # values that contain the characters of a flag     # e+e2 repeat a flag, p3+e repeat a value
-INPUTS = ["file", "flat", "nested", "missing", "badfile", "baddir", "linkdir", "linkfile", "subonly", "txtfile", "upperfile", "badtxt"]
+INPUTS = ["file", "flat", "nested", "missing", "badfile", "baddir", "badtop", "linkdir", "linkfile", "subonly", "txtfile", "upperfile", "badtxt"]
 
 CLI = ("import sys; sys.path.insert(0, %r); import warnings; warnings.filterwarnings('ignore'); import cminx; "
        "cminx.main(sys.argv[1:])")
@@ -34,6 +34,7 @@ def build(box):
                "nested/other/d.cmake": good("d"),
                "lone/file.cmake": good("file"),
                "badfile/bad.cmake": "set(A 1)\nstray text here\nset(B \"unterminated)\n",
+               "badtop/broken.cmake": "function(f\n", "badtop/sub/good.cmake": good("good"), "badtop/zz/last.cmake": good("last"),
                "baddir/a.cmake": good("a"), "baddir/sub/bad.cmake": "function(f\n", "baddir/z.cmake": good("z"),
                # modules only in sub-directories; single files whose names do not end in lower-case '.cmake'
                "subonly/core/a.cmake": good("a"), "subonly/io/b.cmake": good("b"), "subonly/README.txt": "no cmake here\n",
@@ -45,7 +46,7 @@ def build(box):
     os.makedirs(box.path("work", "links"), exist_ok=True)
     os.symlink(os.path.join("..", "lone", "file.cmake"), box.path("work", "links", "AcmeTools.cmake"))
     return {"file": "lone/file.cmake", "flat": "flat", "nested": "nested", "missing": "does/not/exist",
-            "badfile": "badfile/bad.cmake", "baddir": "baddir", "linkdir": "current", "linkfile": "links/AcmeTools.cmake",
+            "badfile": "badfile/bad.cmake", "baddir": "baddir", "badtop": "badtop", "linkdir": "current", "linkfile": "links/AcmeTools.cmake",
             "subonly": "subonly", "txtfile": "proj/CMakeLists.txt", "upperfile": "proj/FindThing.CMAKE", "badtxt": "projbad/CMakeLists.txt"}
 
 
@@ -140,6 +141,10 @@ def run_case(job):
         t_cli = box.files(rc + "/out-cli") if os.path.isdir(os.path.join(cwd, "out-cli")) else {}
         if logged is None and fail_direct and variant == "relative-from-elsewhere":
             msgs = [m for m in msgs if not m.startswith("argv:")]     # a call that fails before running anything is a failure, too
+        if os.path.isdir(os.path.join(cwd, "out-cmake")) != os.path.isdir(os.path.join(cwd, "out-cli")):
+            # "exactly the output tree": an output directory that only one side creates (even an empty one) is a difference
+            msgs.append(f"tree: the output directory exists after cminx_gen_rst: {os.path.isdir(os.path.join(cwd, 'out-cmake'))}, "
+                        f"after the direct run: {os.path.isdir(os.path.join(cwd, 'out-cli'))} (variant {variant})")
         if t_cm != t_cli:
             diffk = sorted(k for k in set(t_cm) | set(t_cli) if t_cm.get(k) != t_cli.get(k))
             msgs.append(f"tree: output of cminx_gen_rst differs from the direct run in {diffk[:5]} (variant {variant})")
@@ -263,6 +268,10 @@ def run_two_calls(job):
             msgs.append("status: CMinx failed in the second call but the script continued")
         t_cm = box.files("work/out-cmake") if os.path.isdir(out_cm) else {}
         t_cli = box.files("work/out-cli") if os.path.isdir(out_cli) else {}
+        if os.path.isdir(os.path.join(cwd, "out-cmake")) != os.path.isdir(os.path.join(cwd, "out-cli")):
+            # "exactly the output tree": an output directory that only one side creates (even an empty one) is a difference
+            msgs.append(f"tree: the output directory exists after cminx_gen_rst: {os.path.isdir(os.path.join(cwd, 'out-cmake'))}, "
+                        f"after the direct run: {os.path.isdir(os.path.join(cwd, 'out-cli'))} (variant {variant})")
         if t_cm != t_cli:
             diffk = sorted(k for k in set(t_cm) | set(t_cli) if t_cm.get(k) != t_cli.get(k))
             msgs.append(f"tree: after two calls in one CMake run ({kind}) the output differs from the two command lines in {diffk[:4]}")
